@@ -516,13 +516,35 @@ fn oracle(c: &Case, rec: &Rec) -> R {
     Ok(())
 }
 
+/// Deterministic controls: the forger's no-lie plain payment is the honest prover.
+fn control_gen(ctx: &crate::engine::Ctx) -> Vec<Case> {
+    let amounts = [AmtSel::Small(3, true), AmtSel::Zero, AmtSel::Small(2, false), AmtSel::Cb(true), AmtSel::Mb(false), AmtSel::InRange(ctx.seed)];
+    (0..ctx.tier.pick(4usize, 12))
+        .map(|i| Case { source: i as u8, amount: amounts[i % amounts.len()].clone(), lie: PayLie::None, strategy: PayStrategy::Plain, seed: ctx.seed.wrapping_mul(0x9e37_79b9).wrapping_add(i as u64) })
+        .collect()
+}
+
 pub fn checks() -> Vec<CheckDef> {
-    vec![prop_check(
+    vec![
+        crate::engine::enum_check(
+            "forger-control",
+            "deterministic controls: the forger's own no-lie plain payment on every pay-token source must be accepted by allow_payment; the closing signature must be valid exactly on (cid, CLOSE, new lock, cb - amount, mb + amount), complete_payment must accept the old state's pair with the prover's blinding factor, and the new pay token must be valid on the new state (reference pairing checks)",
+            &["control/accepted"],
+            false,
+            control_gen,
+            oracle,
+        ),
+        forged_check(),
+    ]
+}
+
+fn forged_check() -> CheckDef {
+    prop_check(
         "forged-pay",
         "generated attempts = (pay-token source: Ready state reached by an honest history of 0-2 payments on boundary / ordinary balances, in-range amount of either sign or 0 from the boundary-seeking selector, lie in {none, wrong nonce (double spend), amount on one balance only, amount off by delta, sign flipped, new customer / merchant balance -1 with the range constraint built for an in-range value, foreign channel id in state and/or close state, close tag replaced by a fresh nonce / 0 / random, old lock mismatch, new lock mismatch, token of another key, tampered token, valid token shown for a richer old state}, strategy in {plain, revealed scalars chosen after the challenge (both / one), scalar commitment or commitment of any sub-proof (token, lock, state, close, a digit proof) chosen after the challenge with the linear checks repaired, mutated atoms}); challenge read through the recorder hook on a draft; oracle: accepted => known openings satisfy the payment statement (token valid on an old message containing exactly the public nonce, balances moved by exactly the amount and in [0,2^63), cid carried over, one new lock, close tag, revocation commitment on the old lock); control: closing signature valid exactly on old -/+ amount, complete_payment accepts the old pair with the prover's factor, new token valid on the new state; distinct by (lie, strategy, amount sign, source)",
-        &["control/accepted", "strategy/revealed-scalars-chosen-after-challenge"],
+        &["strategy/revealed-scalars-chosen-after-challenge", "strategy/plain"],
         (352, 5000),
         strategy,
         oracle,
-    )]
+    )
 }
